@@ -53,6 +53,9 @@ func clip(s string, n int) string {
 
 // repeat runs every applicable generator reps times on in; returns per generator the list of outputs.
 // One parse per repetition; every generator gets its own deep copy of the module.
+// key prefix of the "second generation from the same parsed module" pair in the result of repeat
+const again = "again:"
+
 func repeat(gens []*generator, in *input, reps int) map[string][]string {
 	outs := map[string][]string{}
 	for r := 0; r < reps; r++ {
@@ -66,7 +69,7 @@ func repeat(gens []*generator, in *input, reps int) map[string][]string {
 		}
 		if needModel {
 			t0 := time.Now()
-			m, perr = parseModel(in.Text)
+			m, perr = parseFiles(in.Text, in.Files)
 			addTime("(parse)", time.Since(t0))
 		}
 		for _, g := range gens {
@@ -75,7 +78,13 @@ func repeat(gens []*generator, in *input, reps int) map[string][]string {
 				if perr != nil {
 					o = "PARSE-ERROR: " + perr.Error()
 				} else {
-					o = runOn(g, proto.Clone(m).(*sysl.Module), in)
+					c := proto.Clone(m).(*sysl.Module)
+					o = runOn(g, c, in)
+					if r == 0 {
+						// the SAME module once more, in the same process: a generator must not leave state in the
+						// model (or anywhere else) that changes what the next generation produces
+						outs[again+g.name] = []string{o, runOn(g, c, in)}
+					}
 				}
 			} else {
 				o = runOn(g, nil, in)
@@ -221,6 +230,13 @@ func (r *runner) account(gens []*generator, in *input, reps int, stream string, 
 		default:
 			r.c.Hist("outcome:output")
 		}
+		if pair := outs[again+g.name]; len(pair) == 2 && pair[0] != pair[1] && n == 1 {
+			r.c.Hist("failure-kind:state-leak")
+			r.findings = append(r.findings, finding{"state-leak:" + g.name,
+				fmt.Sprintf("%s: the second generation from the SAME parsed module in one process differs from the first on one %s input (%d bytes); first difference %s",
+					g.name, stream, len(in.Text), firstDiff(pair[0], pair[1])),
+				replay{Generator: g.name, Input: *in, Reps: reps * 4, Note: "again"}, len(in.Text)})
+		}
 		if n > 1 {
 			a, b := differing(os_)
 			key := "nondeterministic:" + g.name
@@ -250,7 +266,7 @@ func main() {
 	c := common.Setup("C19")
 	defer c.Finish()
 	r := &runner{c: c, seenKey: map[string]int{}}
-	c.Res.Rule = "each case = one (generator+option set, input) pair run N times in-process (input re-parsed per repetition); inputs: generated Sysl models with 2..9 entries in every map the generators walk and names whose byte order differs from declaration order, older/newer model pairs for the delta script, generated and corpus OpenAPI3/Swagger/XSD specs for import, the repository's tests/*.sysl; distinct = distinct (generator, input text); non-trivial = the generator produced output (no parse error, no panic)"
+	c.Res.Rule = "each case = one (generator+option set, input) pair run N times in-process (input re-parsed per repetition) plus a second generation from the SAME parsed module in the same process (run 1 vs run 2); inputs: generated Sysl models with 2..9 entries in every map the generators walk and names whose byte order differs from declaration order, two-file models whose tables and columns sit on EQUAL line numbers (sort-key ties), older/newer model pairs for the delta script, generated and corpus OpenAPI3/Swagger/XSD specs for import, the repository's tests/*.sysl; distinct = distinct (generator, input text); non-trivial = the generator produced output (no parse error, no panic)"
 
 	if c.Replay != "" {
 		var rp replay
@@ -332,6 +348,20 @@ func main() {
 			din.Old = old.render()
 			r.submit(slowGens, din, slowReps, "generated", nil)
 		}
+	}
+	// stream 2b: sort-key ties (equal source lines in two files)
+	nTies := 3
+	if c.Thorough() {
+		nTies = 12
+	}
+	for i := 0; i < nTies; i++ {
+		in := tieInput(c.Rng.Fork(), i%3)
+		gs := syslGens
+		if i == 0 || c.Thorough() {
+			gs = append(append([]*generator{}, syslGens...), slowGens...)
+		}
+		r.submit(gs, in, reps+2, "line-ties", nil)
+		c.Hist("stream:line-ties")
 	}
 	// stream 3: hostile / odd models
 	for i, in := range oddInputs(c.Rng.Fork()) {
@@ -433,12 +463,15 @@ func debugDump(c *common.Ctx) {
 		in = corpusInputs()[1]
 	case "corpus2":
 		in = corpusInputs()[2]
+	case "ties":
+		in = tieInput(c.Rng.Fork(), 1)
+		fmt.Println(in.Files["part.sysl"])
 	default:
 		in = inputOf(genModel(c.Rng.Fork(), 1))
 	}
 	fmt.Println(in.Text)
 	t0 := time.Now()
-	m, err := parseModel(in.Text)
+	m, err := parseFiles(in.Text, in.Files)
 	fmt.Println("parse:", time.Since(t0), err)
 	for k := 0; k < 3; k++ {
 		t0 = time.Now()
